@@ -1,10 +1,11 @@
 import json,sys
 pid=sys.argv[1]
 n=sys.argv[2] if len(sys.argv)>2 else "2"
+tag=sys.argv[3] if len(sys.argv)>3 else ""
 p=[json.loads(l) for l in open('/verif/properties.jsonl') if json.loads(l)['id']==pid][0]
-print(f"""You are helping evaluate a verification effort by writing realistic *bugs*. You work ONLY inside the git worktree /tmp/wt-{pid} (a checkout of the Go project liftbridge-io/liftbridge: a Kafka-style replicated message log). Do not read or write anything under /verif or /repo. Do not commit anything.
+print(f"""You are helping evaluate a verification effort by writing realistic *bugs*. You work ONLY inside the git worktree /tmp/wt-{pid}{tag} (a checkout of the Go project liftbridge-io/liftbridge: a Kafka-style replicated message log). Do not read or write anything under /verif or /repo. Do not commit anything.
 
-Environment: no network. For every go command use: `export GOFLAGS=-mod=mod GOPROXY=off` (and do NOT set GOSUMDB or GOTOOLCHAIN). Example: `cd /tmp/wt-{pid} && GOFLAGS=-mod=mod GOPROXY=off go test -count=1 -vet=off ./server/commitlog/`. The `./server` package test suite is slow (10-20 minutes) and binds fixed ports, so only one instance may run on this machine at a time: ALWAYS run it through the wrapper `/tmp/run-server-tests.sh /tmp/wt-{pid}` (it serialises via a lock and may wait for other jobs; extra `go test` arguments such as `-run 'TestX|TestY'` may follow the directory) - run the full suite at most once per candidate change, at the end; a handful of its tests are timing-sensitive under load ("No metadata leader found", "raft operation timed out"): re-run just those by name before concluding a mutant breaks the suite; `./server/commitlog`, `./server/protocol`, `./server/encryption` are fast.
+Environment: no network. For every go command use: `export GOFLAGS=-mod=mod GOPROXY=off` (and do NOT set GOSUMDB or GOTOOLCHAIN). Example: `cd /tmp/wt-{pid}{tag} && GOFLAGS=-mod=mod GOPROXY=off go test -count=1 -vet=off ./server/commitlog/`. The `./server` package test suite is slow (10-20 minutes) and binds fixed ports: ALWAYS run it through the wrapper `/tmp/run-server-tests.sh /tmp/wt-{pid}{tag}` (it gives the run a private network namespace and may wait for a free slot; extra `go test` arguments such as `-run 'TestX|TestY'` may follow the directory). While developing a candidate run only the tests related to the code you touch (`-run` with a regular expression); run the full suite at most once per candidate change, at the end; a handful of its tests are timing-sensitive under load ("No metadata leader found", "raft operation timed out"): re-run just those by name before concluding a mutant breaks the suite; `./server/commitlog`, `./server/protocol`, `./server/encryption` are fast.
 
 Here is a semantic property of the system that should always hold:
 
@@ -16,9 +17,9 @@ Mechanisms it rests on: {json.dumps(p['anchors']['mechanism'], indent=1)}
 
 TASK: produce {n} different, independent source changes ("mutants") to the non-test Go code of the project, each of which BREAKS this property while (a) still compiling, and (b) still passing the project's existing test suite unchanged (at minimum all tests of every package you touched; for changes under server/*.go run the ./server suite once). Each mutant must look like a plausible mistake or over-eager optimisation a developer could make, and must need something SPECIFIC to manifest: a particular interleaving of goroutines, a crash or fault at a particular point, a multi-step sequence of operations, an unusual input/configuration, or two cooperating sites that each look fine alone. Do NOT produce changes that ordinary use would expose at once (e.g. that break every append), and do not touch test files, and do not add new exported APIs. Keep each mutant small (a few lines).
 
-For each mutant k (1..{n}) write these files into /tmp/mutants-{pid}/m<k>/ :
+For each mutant k (1..{n}) write these files into /tmp/mutants-{pid}{tag}/m<k>/ :
   - patch.diff : `git diff` of the change against the worktree HEAD (must apply cleanly with `git apply` on a clean checkout of HEAD)
   - demo_test.go : a Go test file (package of your choice inside the project, state in meta.json where it must be placed, e.g. server/commitlog/zz_demo_test.go) containing a test that FAILS with the mutant applied and PASSES on the unmodified code. It may use internal (unexported) identifiers of that package. It must be deterministic enough to fail reliably (>= 9 of 10 runs) with the mutant.
   - meta.json : {{"property": "{pid}", "summary": "...what the change does...", "needs": "...what is needed for the violation to manifest...", "demo_path": "path where demo_test.go must be copied inside the repo", "demo_run": "go test command to run the demo", "ran": ["commands you ran and their outcome: demo fails with mutant, demo passes without, existing tests pass with mutant"]}}
 
-Work one mutant at a time: make the change, build, run the existing tests of the touched packages, write and run the demo (with and without the change: use `git diff > /tmp/mutants-{pid}/cur.diff` then `git apply -R /tmp/mutants-{pid}/cur.diff` and `git apply /tmp/mutants-{pid}/cur.diff`; NEVER use `git stash`, its stack is shared between worktrees), save the files, then `git checkout -- . && git clean -fdq` to restore the worktree before the next mutant. Leave the worktree clean at the end. Your final message should list the mutants (one line each) and confirm the checks you ran.""")
+Work one mutant at a time: make the change, build, run the existing tests of the touched packages, write and run the demo (with and without the change: use `git diff > /tmp/mutants-{pid}{tag}/cur.diff` then `git apply -R /tmp/mutants-{pid}{tag}/cur.diff` and `git apply /tmp/mutants-{pid}{tag}/cur.diff`; NEVER use `git stash`, its stack is shared between worktrees), save the files, then `git checkout -- . && git clean -fdq` to restore the worktree before the next mutant. Leave the worktree clean at the end. Your final message should list the mutants (one line each) and confirm the checks you ran.""")
